@@ -118,6 +118,7 @@ def run(repo='/repo', tier='quick'):
     res.assumptions.append('that the components partition the target (re-joining reproduces it) is a statement about values and is not decided')
     c13f(db, res)
     c13g(db, res)
+    c13h(db, res)
     return res
 
 
@@ -349,3 +350,29 @@ def c13g(db, res):
             res.check(ok and not written, 'C13.g', '%s:copy(%s,%s)' % (name, P.K(a0) if ok else '?', P.K(a1) if ok else '?'), 'the parameters are stored as given',
                       '%s stores (%s, %s) instead of the bytes it was given: bytes of the supplied value are dropped before it is reported (a request target such as " /a" or "/a\\t" loses bytes that then belong to no component)' % (name, P.K(a0), P.K(a1)), c['loc'])
     res.floor('C13.g', 'copies in the hybrid setters', n, 8)
+
+
+URI_WRITERS = {
+    'htp_parse_uri': 'the splitter', 'htp_parse_uri_hostport': 'CONNECT authority (through htp_parse_hostport)', 'htp_parse_hostport': 'authority splitter (out-parameters)',
+    'htp_normalize_parsed_uri': 'the normaliser fills the normalised copy', 'htp_uri_alloc': 'constructor', 'htp_uri_free': 'destructor',
+    'htp_replace_hostname': 'documented: the Host field replaces the hostname of the normalised URI when the target has none',
+    'htp_connp_RES_IDLE': 'placeholder URI of a response without a request', 'htp_tx_req_set_parsed_uri': 'hybrid API: the application supplies the structure',
+}
+
+
+def c13h(db, res):
+    """The components of the target are what the splitter found in the target. No later stage (header processing, host
+    determination) writes a component of the URI structures - the Host field has its own fields (request_hostname,
+    request_port_number)."""
+    res.rule('C13.h', 'only the URI functions write URI components: every store to a field of htp_uri_t is in the splitter, the normaliser, the constructor / destructor or one of the tabled hand-overs')
+    n = 0
+    for name, f in sorted(db.fn.items()):
+        if not f.blocks:
+            continue
+        for b, i, st in f.stmts():
+            for a in nodes(st, lambda y: y.get('k') == 'assign' and strip(y['l']).get('k') == 'member' and strip(y['l']).get('rec') == 'htp_uri_t'):
+                n += 1
+                fld = strip(a['l'])['field']
+                res.check(name in URI_WRITERS, 'C13.h', '%s:writes:htp_uri_t.%s' % (name, fld), URI_WRITERS.get(name, ''),
+                          '%s stores into the %s component of a URI structure: a component that does not come from the request target is reported as part of it (a port taken from the Host field, say, for a target without a port)' % (name, fld), a['loc'])
+    res.floor('C13.h', 'stores to URI components', n, 10)
